@@ -1140,3 +1140,52 @@ Proof.
   generalize dependent (init_state c). induction ops as [|o t IH]; intros st I I2; simpl; [split; assumption|].
   apply IH; [apply step_inv; exact I|apply step_inv2; assumption].
 Qed.
+
+(* ------------------------------------------------------------------ interleaved histories *)
+Definition afinal (s : aside) (ops : list op) : aside := fold_left (fun s o => fst (astep s o)) ops s.
+
+Lemma touches_side o j : touches o j = true -> is_set_op o = false /\ op_side o = Z.of_nat j.
+Proof.
+  unfold touches. intros H. apply andb_true_iff in H. destruct H as [H1 H2].
+  split; [apply negb_true_iff; exact H1|apply Z.eqb_eq; exact H2].
+Qed.
+
+Lemma nth_side_of_nat {A : Type} (l : list A) j : nth_side l (Z.of_nat j) = nth_error l j.
+Proof.
+  unfold nth_side. destruct (Z.of_nat j <? 0) eqn:E; [apply Z.ltb_lt in E; lia|]. rewrite Nat2Z.id. reflexivity.
+Qed.
+
+(* one step of the whole system, seen from side j *)
+Lemma step_seen_from st o j sd : Inv st -> Inv2 st -> nth_error (st_sides st) j = Some sd ->
+  exists sd', nth_error (st_sides (fst (step st o))) j = Some sd' /\
+              absf (st_heap (fst (step st o))) sd'
+              = if touches o j then fst (astep (absf (st_heap st) sd) o) else absf (st_heap st) sd.
+Proof.
+  intros I I2 Hj. destruct (touches o j) eqn:Ht.
+  - destruct (touches_side o j Ht) as [Hs Ho].
+    assert (Hstep : step st o =
+                    let '(h', sd', res) := step_side (st_heap st) sd o in (with_side st h' (Z.of_nat j) sd', res)).
+    { unfold step. destruct o; cbn [is_set_op op_side] in *; try discriminate; try (exfalso; lia); subst;
+        rewrite nth_side_of_nat, Hj; reflexivity. }
+    rewrite Hstep. destruct (step_side (st_heap st) sd o) as [[h' sd'] res] eqn:E. cbn [fst with_side st_sides st_heap].
+    exists sd'. split.
+    + unfold put_side. rewrite Nat2Z.id, nth_error_upd, Nat.eqb_refl, Hj. reflexivity.
+    + destruct (refine_step _ _ _ _ _ _ (inv_ok _ I j sd Hj) (I2 j sd Hj) E) as [Er _].
+      rewrite <- Er. reflexivity.
+  - destruct (step_independent st o j sd I Hj Ht) as [Hj' Ea]. exists sd. split; [exact Hj'|].
+    unfold absf. rewrite Ea. reflexivity.
+Qed.
+
+(* whatever happens on the other sides (copies included), the abstract state of side j is the abstract machine run on
+   exactly the operations addressed to side j *)
+Theorem side_history st ops j sd : Inv st -> Inv2 st -> nth_error (st_sides st) j = Some sd ->
+  exists sd', nth_error (st_sides (run_states st ops)) j = Some sd' /\
+              absf (st_heap (run_states st ops)) sd'
+              = afinal (absf (st_heap st) sd) (filter (fun o => touches o j) ops).
+Proof.
+  revert st sd; induction ops as [|o t IH]; intros st sd I I2 Hj; simpl.
+  - exists sd. split; [exact Hj|reflexivity].
+  - destruct (step_seen_from st o j sd I I2 Hj) as [sd1 [Hj1 E1]].
+    destruct (IH (fst (step st o)) sd1 (step_inv st o I) (step_inv2 st o I I2) Hj1) as [sd' [Hj' E']].
+    exists sd'. split; [exact Hj'|]. rewrite E', E1. destruct (touches o j); reflexivity.
+Qed.
